@@ -21,6 +21,7 @@ PROP = {  # commit subject fragment -> (property, id)
  "io::BufWriter emits the output out of order": ("C05", "F4"),
  "Object equality is not symmetric": ("C19", "F10"),
  "loses the decoded-string race releases": ("C18", "F24"),
+ "BitMask::clear_high_bits(LEN)": ("C17", "F25"),
 }
 KNOWN = []
 out = []
